@@ -312,6 +312,38 @@ static std::string run_rng(const Sx& c, bool newstyle) {
   return "(" + out + (crashed ? " (-996)" : "") + ")";
 }
 
+// 62: both styles of the generator and the seeded procedures of the library, in one process
+//  ops: (0 seed) law_set_random_seed | (1) uniform | (2) gaussian | (3 a b) int_uniform | (4) exponential | (5 b) law_set_old_style(b)
+//       (6 n seed) VH::sampleRanks(n, 0.5, 0, seed) | (7 n seed) seed + law_random_path(n) | (8 n seed) Db::createFillRandom(n,..,seed)
+//       (9 n seed) Db::addColumnsRandom(1, .., seed) on a Db of n samples
+//  per op: the values it produced (never the state: the property is about results)
+#include "Basic/VectorHelper.hpp"
+static std::string run_rng2(const Sx& c) {
+  bool crashed = false;
+  std::string out = in_child([&](int fd) {
+    std::string o;
+    for (auto& op : c[1].l) {
+      long long k = op[0].i();
+      std::vector<double> v;
+      if (k == 0) law_set_random_seed((int) op[1].i());
+      else if (k == 1) v.push_back(law_uniform(0., 1.));
+      else if (k == 2) v.push_back(law_gaussian());
+      else if (k == 3) v.push_back((double) law_int_uniform((int) op[1].i(), (int) op[2].i()));
+      else if (k == 4) v.push_back(law_exponential());
+      else if (k == 5) law_set_old_style(op[1].b());
+      else if (k == 6) { VectorInt r = VH::sampleRanks((int) op[1].i(), 0.5, 0, (int) op[2].i()); for (int x : r.getVector()) v.push_back(x); }
+      else if (k == 7) { law_set_random_seed((int) op[2].i()); VectorInt r = law_random_path((int) op[1].i()); for (int x : r.getVector()) v.push_back(x); }
+      else if (k == 8) { Db* d = Db::createFillRandom((int) op[1].i(), 2, 1, 0, 0, 0., 0., VectorDouble(), VectorDouble(), VectorDouble(), (int) op[2].i(), false);
+                         for (int ic = 0; ic < d->getColumnNumber(); ic++) { VectorDouble col = d->getColumnByColIdx(ic, false, false); for (double x : col.getVector()) v.push_back(x); } delete d; }
+      else if (k == 9) { VectorDouble tab((size_t) op[1].i(), 1.); Db* d = Db::createFromSamples((int) op[1].i(), ELoadBy::COLUMN, tab, {"x"}, {"x1"}, false);
+                         d->addColumnsRandom(1, "New", ELoc::Z, 0, (int) op[2].i()); VectorDouble col = d->getColumnByColIdx(1, false, false); for (double x : col.getVector()) v.push_back(x); delete d; }
+      o += " " + sx_vd(v);
+    }
+    wr(fd, o);
+  }, crashed);
+  return "(" + out + (crashed ? " (-996)" : "") + ")";
+}
+
 // ------------------------------------------------------------------ 70: covariance optimisation cache
 #include "Model/Model.hpp"
 #include "Db/Db.hpp"
@@ -610,6 +642,7 @@ static std::string run(const Sx& c) {
   if (kind == 53) return run_proj(c);
   if (kind == 60) return run_rng(c, false);
   if (kind == 61) return run_rng(c, true);
+  if (kind == 62) return run_rng2(c);
   if (kind == 70) return run_cov(c);
   if (kind == 80) return run_krig(c);
   if (kind == 81) return run_memo(c);
